@@ -572,4 +572,178 @@ instance realLawful : LawfulExpLog ℝ where
     obtain ⟨hb0, rfl⟩ := hb
     exact ⟨mul_pos ha0 hb0, Real.log_mul ha0.ne' hb0.ne'⟩
 
+/-! ## 7. The two execution orders are admissible under closed-form conditions on the model text -/
+
+section orders
+variable {β : Type}
+
+/-- **dates×equations.**  For any plan and any increasing list of simulated columns: if every equation passes `SelfOKText`,
+different equations write different rows, and the model is sequentialised with leads only into input cells
+(`DatesEquationsCond`: a row written by equation `j` is read by equation `i`, inside the span, only at a lag, or in the same
+period when `j` is not later than `i`), then the `dates_equations` schedule is `Admissible`. -/
+theorem datesEquations_admissible (eqs : List (Equation β)) (plan : Plan) (cols : List Int)
+    (hcols : cols.Pairwise (· < ·)) (hS : AllSelfOK eqs) (hW : DistinctWrites eqs)
+    (hC : DatesEquationsCond eqs cols) :
+    Admissible eqs plan (datesEquations cols eqs.length) := by
+  refine ⟨fun s _ => selfOK_of_text eqs s hS, pairwise_datesEquations _ _ _ hcols ?_⟩
+  intro t ht t' ht' i j hi hj hord
+  refine noClobber_of eqs plan i j t t' hW ?_ (by omega)
+  intro ei ej hei hej tok htok hw heq
+  have := hC (ei, i) (List.mem_zipIdx_iff_getElem?.mpr hei) (ej, j) (List.mem_zipIdx_iff_getElem?.mpr hej) tok htok hw
+    t ht (heq ▸ ht')
+  simp only at this
+  omega
+
+/-- **equations×dates.**  Same, under `EquationsDatesCond`: a row written by equation `j` is read by equation `i`, inside the
+span, only when `j` is an earlier equation (at any shift, leads included) or `j = i` at a non-positive shift. -/
+theorem equationsDates_admissible (eqs : List (Equation β)) (plan : Plan) (cols : List Int)
+    (hcols : cols.Pairwise (· < ·)) (hS : AllSelfOK eqs) (hW : DistinctWrites eqs)
+    (hC : EquationsDatesCond eqs cols) :
+    Admissible eqs plan (equationsDates cols eqs.length) := by
+  refine ⟨fun s _ => selfOK_of_text eqs s hS, pairwise_equationsDates _ _ _ hcols ?_⟩
+  intro t ht t' ht' i j hi hj hord
+  refine noClobber_of eqs plan i j t t' hW ?_ (by omega)
+  intro ei ej hei hej tok htok hw heq
+  have := hC (ei, i) (List.mem_zipIdx_iff_getElem?.mpr hei) (ej, j) (List.mem_zipIdx_iff_getElem?.mpr hej) tok htok hw
+    t ht (heq ▸ ht')
+  simp only at this
+  omega
+
+/-- purely textual sufficient condition for every span: the model is **sequentialised and has no leads on written rows** -/
+def SequentialisedNoLeads (eqs : List (Equation β)) : Prop :=
+  ∀ p ∈ eqs.zipIdx, ∀ q ∈ eqs.zipIdx, ∀ tok ∈ p.1.depTokens, tok.1 ∈ q.1.writeRows →
+    (tok.2 < 0 ∨ (tok.2 = 0 ∧ q.2 ≤ p.2))
+
+theorem datesEquations_admissible_of_sequentialised (eqs : List (Equation β)) (plan : Plan) (cols : List Int)
+    (hcols : cols.Pairwise (· < ·)) (hS : AllSelfOK eqs) (hW : DistinctWrites eqs)
+    (hC : SequentialisedNoLeads eqs) :
+    Admissible eqs plan (datesEquations cols eqs.length) :=
+  datesEquations_admissible eqs plan cols hcols hS hW (fun p hp q hq tok htok hw _ _ _ => hC p hp q hq tok htok hw)
+
+/-- purely textual sufficient condition for `equations_dates` on every span: an equation reads rows written by equations
+only from **earlier** equations (any shift) or its own lags -/
+def ReadsOnlyEarlierEquations (eqs : List (Equation β)) : Prop :=
+  ∀ p ∈ eqs.zipIdx, ∀ q ∈ eqs.zipIdx, ∀ tok ∈ p.1.depTokens, tok.1 ∈ q.1.writeRows →
+    (q.2 < p.2 ∨ (q.2 = p.2 ∧ tok.2 ≤ 0))
+
+theorem equationsDates_admissible_of_text (eqs : List (Equation β)) (plan : Plan) (cols : List Int)
+    (hcols : cols.Pairwise (· < ·)) (hS : AllSelfOK eqs) (hW : DistinctWrites eqs)
+    (hC : ReadsOnlyEarlierEquations eqs) :
+    Admissible eqs plan (equationsDates cols eqs.length) :=
+  equationsDates_admissible eqs plan cols hcols hS hW (fun p hp q hq tok htok hw _ _ _ => hC p hp q hq tok htok hw)
+
+end orders
+
+/-! ### the two conditions are incomparable (rows: 0 = x0, 1 = x1, 2 = res_x0, 3 = res_x1, 4 = z) -/
+
+/-- `x0 = x1[-1]; x1 = x0`: a LAG of a later equation's LHS -/
+def lagOfLater : List (Equation ℚ) :=
+  [{ lhs := 0, tr := .none, identity := false, rhs := .var 1 (-1), res := 2 },
+   { lhs := 1, tr := .none, identity := false, rhs := .var 0 0, res := 3 }]
+
+/-- `x0 = z; x1 = x0[+1]`: a LEAD of an earlier equation's LHS -/
+def leadOfEarlier : List (Equation ℚ) :=
+  [{ lhs := 0, tr := .none, identity := false, rhs := .var 4 0, res := 2 },
+   { lhs := 1, tr := .none, identity := false, rhs := .var 0 1, res := 3 }]
+
+/-- admissible under dates×equations (condition and decision agree) but not under equations×dates -/
+example : AllSelfOK lagOfLater ∧ DistinctWrites lagOfLater ∧ DatesEquationsCond lagOfLater [1, 2]
+    ∧ ¬ EquationsDatesCond lagOfLater [1, 2]
+    ∧ admissible lagOfLater (fun _ _ => none) (datesEquations [1, 2] 2) = true
+    ∧ admissible lagOfLater (fun _ _ => none) (equationsDates [1, 2] 2) = false := by decide
+
+/-- admissible under equations×dates but not under dates×equations -/
+example : AllSelfOK leadOfEarlier ∧ DistinctWrites leadOfEarlier ∧ EquationsDatesCond leadOfEarlier [1, 2]
+    ∧ ¬ DatesEquationsCond leadOfEarlier [1, 2]
+    ∧ admissible leadOfEarlier (fun _ _ => none) (equationsDates [1, 2] 2) = true
+    ∧ admissible leadOfEarlier (fun _ _ => none) (datesEquations [1, 2] 2) = false := by decide
+
+/-- a lead that lands after the span end is an input cell: with one simulated column `leadOfEarlier` is fine under both -/
+example : DatesEquationsCond leadOfEarlier [1] ∧ admissible leadOfEarlier (fun _ _ => none) (datesEquations [1] 2) = true := by
+  decide
+
+
+
+/-! ### the executable decision used in the correspondence is sound and complete for `Admissible` -/
+
+/-- `admissible` (Bool) decides `Admissible` -/
+theorem admissible_decides {β : Type} (eqs : List (Equation β)) (plan : Plan) (sched : List (Int × Nat)) :
+    admissible eqs plan sched = true ↔ Admissible eqs plan sched := admissible_iff eqs plan sched
+
+/-- all flags printed by the driver are `T` exactly when the schedule is `Admissible` -/
+theorem admissibleFlags_sound {β : Type} (eqs : List (Equation β)) (plan : Plan) (sched : List (Int × Nat)) :
+    (∀ b ∈ admissibleFlags eqs plan sched, b = true) ↔ Admissible eqs plan sched := admissibleFlags_all_iff eqs plan sched
+
+/-- the flag at position `k` is `stepOK` of the `k`-th step w.r.t. the steps after it — the hypothesis of `schedule_step` -/
+theorem admissibleFlags_step {β : Type} (eqs : List (Equation β)) (plan : Plan) (pre post : List (Int × Nat)) (s : Int × Nat) :
+    (admissibleFlags eqs plan (pre ++ s :: post))[pre.length]? = some (stepOK eqs plan s post) :=
+  admissibleFlags_getElem eqs plan pre post s
+
+/-! ## 8. End to end: from the model text and the plan to "every equation holds" -/
+
+/-- the schedule `_simulate_v` builds for an execution order (`true` = `dates_equations`, `false` = `equations_dates`) -/
+def scheduleOf {β : Type} (datesFirst : Bool) (eqs : List (Equation β)) (cols : List Int) : List (Int × Nat) :=
+  if datesFirst then datesEquations cols eqs.length else equationsDates cols eqs.length
+
+/-- the condition on the model text that the chosen order needs -/
+def OrderCond {β : Type} (datesFirst : Bool) (eqs : List (Equation β)) (cols : List Int) : Prop :=
+  if datesFirst then DatesEquationsCond eqs cols else EquationsDatesCond eqs cols
+
+theorem scheduleOf_admissible {β : Type} (datesFirst : Bool) (eqs : List (Equation β)) (plan : Plan) (cols : List Int)
+    (hcols : cols.Pairwise (· < ·)) (hS : AllSelfOK eqs) (hW : DistinctWrites eqs) (hC : OrderCond datesFirst eqs cols) :
+    Admissible eqs plan (scheduleOf datesFirst eqs cols) := by
+  cases datesFirst
+  · exact equationsDates_admissible eqs plan cols hcols hS hW hC
+  · exact datesEquations_admissible eqs plan cols hcols hS hW hC
+
+/-- what the property promises for equation `eq` at column `t` in the output data: the equation holds with its residual —
+unless the computed LHS is NaN, the LHS transform is undefined at the lag, or the point is exogenized and the backed-out
+residual is NaN -/
+def EquationOutcome (plan : Plan) (eq : Equation K) (tblF : Table K) (t : Int) : Prop :=
+  eq.Holds tblF t ∨ tblF eq.lhs t = V.nan ∨ ¬ Dom eq.tr (eq.lagVal tblF t)
+    ∨ (eq.identity = false ∧ (plan eq.lhs t).isSome = true ∧ tblF eq.res t = V.nan)
+
+/-- **End-to-end theorem.**  Hypotheses about the model text (`AllSelfOK`, `DistinctWrites`, the order condition), the span
+(increasing columns) and — only for the pre-fix statement list of `exogenize` — zero input residuals at planned points; for
+any data, residual paths, parameters and plan, under either execution order: if `_simulate_v` runs without error, every
+equation holds at every simulated column in the final data (up to the NaN/undefined excuses of `EquationOutcome`). -/
+theorem simulate_all_equations_hold [CharZero K] [LawfulExpLog K]
+    (datesFirst : Bool) (eqs : List (Equation K)) (plan : Plan) (tbl tblF : Table K) (cols : List Int)
+    (hcols : cols.Pairwise (· < ·)) (hS : AllSelfOK eqs) (hW : DistinctWrites eqs) (hC : OrderCond datesFirst eqs cols)
+    (hrun : simulateV eqs plan tbl (scheduleOf datesFirst eqs cols) = .ok tblF)
+    (hres : Explanatory.exogenizeSteps = stepsAsIs → ∀ t ∈ cols, ∀ eq ∈ eqs, eq.identity = false →
+      (plan eq.lhs t).isSome = true → tbl eq.res t = V.fin 0) :
+    ∀ t ∈ cols, ∀ eq ∈ eqs, EquationOutcome plan eq tblF t := by
+  intro t ht eq heq
+  obtain ⟨i, hi, hget⟩ := List.getElem_of_mem heq
+  have hget? : eqs[i]? = some eq := by rw [List.getElem?_eq_getElem hi, hget]
+  have hadm := (admissible_iff eqs plan _).mpr (scheduleOf_admissible datesFirst eqs plan cols hcols hS hW hC)
+  have hmem : (t, i) ∈ scheduleOf datesFirst eqs cols := by
+    cases datesFirst
+    · exact (mem_equationsDates cols eqs.length (t, i)).mpr ⟨ht, hi⟩
+    · exact (mem_datesEquations cols eqs.length (t, i)).mpr ⟨ht, hi⟩
+  have hmem' : ∀ s ∈ scheduleOf datesFirst eqs cols, s.1 ∈ cols := by
+    intro s hs
+    cases datesFirst
+    · exact ((mem_equationsDates cols eqs.length s).mp hs).1
+    · exact ((mem_datesEquations cols eqs.length s).mp hs).1
+  exact schedule_admissible eqs plan tbl tblF _ hadm hrun
+    (fun h s hs eq' heq' hid hp => hres h s.1 (hmem' s hs) eq' (List.mem_of_getElem? heq') hid hp) (t, i) hmem eq hget?
+
+/-- the statement list of `Explanatory.exogenize` in the code now is the repaired one -/
+theorem exogenize_is_repaired : Explanatory.exogenizeSteps = stepsRepaired := by decide
+
+/-- **End-to-end theorem for the code as it is now**: no hypothesis on the data at all. -/
+theorem simulate_all_equations_hold_current [CharZero K] [LawfulExpLog K]
+    (datesFirst : Bool) (eqs : List (Equation K)) (plan : Plan) (tbl tblF : Table K) (cols : List Int)
+    (hcols : cols.Pairwise (· < ·)) (hS : AllSelfOK eqs) (hW : DistinctWrites eqs) (hC : OrderCond datesFirst eqs cols)
+    (hrun : simulateV eqs plan tbl (scheduleOf datesFirst eqs cols) = .ok tblF) :
+    ∀ t ∈ cols, ∀ eq ∈ eqs, EquationOutcome plan eq tblF t :=
+  simulate_all_equations_hold datesFirst eqs plan tbl tblF cols hcols hS hW hC hrun
+    (fun h => absurd (h.symm.trans exogenize_is_repaired) (by decide))
+
+/-- non-vacuity: the witness model `x = 0.5*x[-1] + res_x` over columns 1, 2 meets every hypothesis, under both orders -/
+example : ([1, 2] : List Int).Pairwise (· < ·) ∧ AllSelfOK [(wEq : Equation ℚ)] ∧ DistinctWrites [(wEq : Equation ℚ)]
+    ∧ DatesEquationsCond [(wEq : Equation ℚ)] [1, 2] ∧ EquationsDatesCond [(wEq : Equation ℚ)] [1, 2] := by decide
+
 end IrisVerif.C17
